@@ -1,6 +1,7 @@
 SPECIFICATION Spec
 CONSTANTS Kind = "digraph"
   MaxN = 3
+  NegArgs = 2
   Depth = 0
   Batches <- AllBatches
 INVARIANT TypeOK
